@@ -7,10 +7,11 @@ import (
 
 // byteWalk: E3 — all byte strings over a reduced alphabet up to length L, in length-lexicographic
 // order per shard, for the small parsers whose whole grammar fits in a few bytes.
-//   Mapping:     body over {00,01,02,05,'=',';','a',ff}, L<=6 (thorough 7), each with the size
-//                prefix variants {exact, -1, +1, +2, 0, ffff}
-//   Certificate: {00,01,02,03,04,05,ff}, L<=6 (thorough 7)
-//   I2PString:   {00,01,02,'a',ff}, L<=5 (thorough 6)
+//
+//	Mapping:     body over {00,01,02,05,'=',';','a',ff}, L<=6 (thorough 7), each with the size
+//	             prefix variants {exact, -1, +1, +2, 0, ffff}
+//	Certificate: {00,01,02,03,04,05,ff}, L<=6 (thorough 7)
+//	I2PString:   {00,01,02,'a',ff}, L<=5 (thorough 6)
 func byteWalk(r *core.Run, depthDelta int, visit func(worker int, family string, b []byte)) {
 	type spec struct {
 		fam   string
